@@ -207,13 +207,13 @@ c18_types!(
 fn subs() -> Vec<Sub> {
     vec![
         Sub { prop: "C17", name: "family", rule: "value of one of 48 serde types (all primitives <= 64 bit, char, strings, serialize_bytes buffers, options, unit, unit/newtype/tuple/named structs, seqs, tuples, arrays, maps, externally/internally/adjacently/un-tagged enums, flatten, skip_serializing_if, renames, unknown-length seq/map, 25-field struct): bytes == independent model serializer (documented representation) and one well-formed item; from_slice == value with exact consumption (junk follows); wider heads -> same value; indefinite containers / chunked strings -> same value or error; unknown extra struct entry ignored; distinct by (type, bytes)",
-              kind: Kind::Random { quick: 300_000, thorough: 10_000_000, tape: 1024, f: c17_family } },
+              kind: Kind::Random { quick: 1_500_000, thorough: 10_000_000, tape: 1024, f: c17_family } },
         Sub { prop: "C17", name: "adjacent-reordered", rule: "adjacently tagged enums with the content entry placed before the tag entry deserialise to the same value",
-              kind: Kind::Random { quick: 30_000, thorough: 600_000, tape: 128, f: adjacent_sub } },
+              kind: Kind::Random { quick: 150_000, thorough: 600_000, tape: 128, f: adjacent_sub } },
         Sub { prop: "C17", name: "borrowed", rule: "&str and &[u8] fields deserialise from text / byte strings as slices of the input",
-              kind: Kind::Random { quick: 20_000, thorough: 400_000, tape: 256, f: borrowed } },
+              kind: Kind::Random { quick: 100_000, thorough: 400_000, tape: 256, f: borrowed } },
         Sub { prop: "C18", name: "shared-model", rule: "value of one of 52 types in the data model shared by both codecs: minicbor::to_vec == minicbor_serde::to_vec; each side's bytes decode through the other side to the value; re-framed encodings (wider heads: both must accept; indefinite containers / chunked strings) never yield two different values or a value different from the model's; distinct by (type, bytes)",
-              kind: Kind::Random { quick: 300_000, thorough: 10_000_000, tape: 1024, f: c18_shared } },
+              kind: Kind::Random { quick: 1_500_000, thorough: 10_000_000, tape: 1024, f: c18_shared } },
     ]
 }
 
